@@ -37,4 +37,8 @@ theorem source_lifecycle_matches_transition_system : lifecycleFactsOK = true := 
 only exemption is the AUTH command itself -/
 theorem source_auth_gate : (factHolds "authGateBeforeExecutor" && factHolds "authGateExemptsOnlyAuth") = true := by decide
 
+/-- command and option names are folded byte-wise for a-z only (`upperASCII`, the model's `upper`): no Unicode case
+folding (`strings.ToUpper`, `ToLower`, `EqualFold`, `ToTitle`) anywhere in the framework's non-test sources -/
+theorem source_ascii_case : factHolds "noUnicodeCaseFolding" = true := by decide
+
 end GoRedis
